@@ -116,27 +116,39 @@ def sequence_part(res, pid="C03"):
     for k in range(60 if res.tier == "quick" else 2000):
         n1 = rng.choice([1, 1, 2, 3, rng.randrange(1, 7)])
         n2 = rng.choice([n1, n1, n1 + 1, max(1, n1 - 1), rng.randrange(1, 8)])
-        cut = rng.choice([72, 72, 16, 17, 40, 64, 71, rng.randrange(16, 72)])
+        # the file between the two daemons: whole; cut short behind its header (still a segment clients can open: taken
+        # over in place); cut inside its header (unusable: laid out anew in place, the generation starts over)
+        cut = rng.choice([72, 72, 16, 17, 40, 64, 71, rng.randrange(16, 72), rng.choice([0, 8, 12, 15])])
         mask = rng.choice([0, 0, rng.randrange(1 << n2), (1 << n2) - 1])
+        ver = rng.choice([1, 1, 1, 2, 7])           # the layout version in the header while the client attaches
         recs = [(1000 + j, rng.randrange(10 ** 9), 2000 + j, 0, rng.randrange(10 ** 9), rng.choice([1000, 50000]), rng.randrange(3)) for j in range(n1 + n2)]
-        rlines.append("pubr %d %d %d %d %s" % (n1, cut, n2, mask, " ".join(" ".join(map(str, r)) for r in recs)))
-        rmeta.append((n1, cut, n2, mask, recs))
+        if rng.random() < 0.3:
+            recs[n1] = (0, 0, 1000, 0, 0, recs[n1][5], 0)       # the second daemon begins with its start-up record (chronyd not heard yet)
+        rlines.append("pubr %d %d %d %d %d %s" % (n1, cut, n2, mask, ver, " ".join(" ".join(map(str, r)) for r in recs)))
+        rmeta.append((n1, cut, n2, mask, ver, recs))
     routs = c.run_lines_hang_aware(c.build_harness("debug")[0], rlines, "hang")
-    for (n1, cut, n2, mask, recs), ln, o in zip(rmeta, rlines, routs):
+    for (n1, cut, n2, mask, ver, recs), ln, o in zip(rmeta, rlines, routs):
         res.evaluations += 1
-        res.count("gen:restart under an attached client, file %s" % ("whole" if cut == 72 else "cut short behind the header"))
+        res.count("gen:restart under an attached client, file %s" % ("whole" if cut == 72 else ("cut short behind the header" if cut >= 16 else "cut inside the header")))
         res.nontriv(ln)
         if o in ("hang", "crash"):
             bad.append({"schedule": ln, "impl": o, "why": ["two daemons publishing in turn and a client reading did not return within 5 s (%s)" % o]})
             continue
         if pid == "C18":
             continue
+        cached_gen = 2 * n1          # the attached client looked after every publication of the first daemon
         for tok in o.split():
             tag, got = tok.split(":", 1)
             kk = n1 + n2 if tag == "F" else int(tag[1:])
             want = ":".join(map(str, recs[kk - 1]))
+            if tag != "F" and kk > n1:
+                # the generation of this publication: the count goes on after a take-over, starts over after a re-creation
+                gen = 2 * kk if cut >= 16 else 2 * (kk - n1)
+                if gen == cached_gen:
+                    continue         # the live generation coincides with the one the client cached: the documented exception
+                cached_gen = gen
             if got != want:
-                who = "a client attaching afresh" if tag == "F" else "the client attached since the first publication"
+                who = "a client attaching afresh" if tag == "F" else "the client attached since the first publication (layout version %d in the header then)" % ver
                 bad.append({"schedule": ln, "impl": o,
                             "why": ["daemon 1 published %d records and went away, the file was %s, daemon 2 started over it; after its publication %d (%s), no update in flight, "
                                     "%s obtained %s" % (n1, "left whole" if cut == 72 else "cut to %d bytes" % cut, kk - n1, want, who, got)]})
@@ -144,8 +156,10 @@ def sequence_part(res, pid="C03"):
     res.oblige("after every publication of a sequence both an attached and a fresh client obtain it (%d sequences, %d with a restart of the daemon, shim-free)" % (len(outs), len(routs)), not bad)
     if bad:
         res.violation({"property": pid, "kind": "history", "case": bad[0], "others": [b["schedule"][:200] for b in bad[1:4]],
-                       "predicate": "if no update is in flight while a call executes, the call returns the most recently completed publication" if pid == "C03"
-                                    else "a client call completes after a bounded amount of work whatever the daemon publishes",
+                       "predicate": {"C18": "a client call completes after a bounded amount of work whatever the daemon publishes",
+                                     "C02": "every record a reader obtains is, field for field, one record the daemon published in full (here: the one just published, no update in flight)",
+                                     "C04": "clients see the restarted daemon's publications without reopening anything; new clients can attach after the first publication"}.get(
+                                         pid, "if no update is in flight while a call executes, the call returns the most recently completed publication"),
                        "how_to_replay": "./check C03"})
 
 
